@@ -159,7 +159,7 @@ pub fn run(part: &mut Part) {
             let profiles = if TINY {
                 vec![
                     prof("empty x A_roll", vec![seed_empty()], a_roll(), if q { 4 } else { 5 }),
-                    prof("structural seeds x A_roll", structural_seeds(), a_roll(), if q { 4 } else { 5 }),
+                    prof("structural seeds x A_roll", structural_seeds(), a_roll(), if q { 3 } else { 4 }),
                     prof("cursor near file end / all-dead file x A_roll", file_end, a_roll(), if q { 3 } else { 4 }),
                     all_seeds_prof(a_roll(), if q { 2 } else { 3 }, q),
                 ]
@@ -181,6 +181,13 @@ pub fn run(part: &mut Part) {
                     ..Default::default()
                 })
                 .collect();
+            let mut mons = mons;
+            // the same under policies that keep entries in the user-space buffer between calls
+            for pol in [PolicyCfg::DoNothing, PolicyCfg::DelayAltFlush] {
+                let mut m = mons[0].clone();
+                m.policy = Some(pol);
+                mons.push(m);
+            }
             part.extra.insert("hash_seed_orders".into(), json!(seeds_hash));
             run_seq(part, profiles, mons);
             // the log begins with the continuation frames of an entry whose head was deleted
